@@ -80,7 +80,8 @@ impl Driver {
         // yasm -f elf64 filename.asm
         Command::new("yasm")
             .args(["-f", "elf64"])
-            .args(["-o", dist_path.to_str().unwrap()])
+            .arg("-o")
+            .arg(&dist_path)
             .arg(source_path)
             .status()
             .map_err(|_| DriverError::BinaryNotFound {
@@ -98,9 +99,10 @@ impl Driver {
 
         // gcc -o filename path/to/driver.c path/to/io.c filename.o
         Command::new("gcc")
-            .args(["-o", bin_path.to_str().unwrap()])
-            .arg(c_driver_path.to_str().unwrap())
-            .arg(io_runtime_path.to_str().unwrap())
+            .arg("-o")
+            .arg(&bin_path)
+            .arg(&c_driver_path)
+            .arg(&io_runtime_path)
             .arg(dist_path)
             .status()
             .map_err(|_| DriverError::BinaryNotFound {
